@@ -155,6 +155,7 @@ static void case_pca(vh_ctx *c)
   int extreme = vh_coin(c, 0.06) ? (vh_coin(c, 0.5) ? 1 : -1) : 0;
   if (extreme) { ld f = extreme > 0 ? 1e160L : 1e-170L; for (i = 0; i < n * p; i++) X->a[i] = (ld)(double)((X->a[i] + (ld)(i % 7 + 1)) * f); }
   mx = matrix_of_ldm(X);
+  if (c->verbose) { size_t a_, b_; fprintf(stderr, "PCA input %zu x %zu\n", n, p); for (a_ = 0; a_ < n; a_++) { for (b_ = 0; b_ < p; b_++) fprintf(stderr, "%.17g ", mx->data[a_][b_]); fprintf(stderr, "\n"); } }
   npc = (size_t)vh_int(c, 1, (long)p + 2);
   rk = pre_rank(X, scaling, &T);
   snprintf(g_inclass, sizeof g_inclass, "%s%s%s", kname(kind), pert > 0 ? "+perturbed" : "", extreme > 0 ? "+overflow-magnitude" : extreme < 0 ? "+underflow-magnitude" : "");
@@ -189,7 +190,25 @@ static void case_pca(vh_ctx *c)
     for (k = 0; k < got; k++) {
       double ve = m->varexp->data[k];
       if (ve != ve) { vh_fail(c, k >= rk ? "PCA|varexp-NaN-beyond-rank" : "PCA|varexp-NaN", "varexp[%zu] is NaN (rank %zu)", k, rk); break; }
-      if (k >= rk && fabs(ve) > 1e-6) { vh_fail(c, "PCA|varexp-nonzero-beyond-rank", "varexp[%zu]=%g beyond rank %zu", k, ve, rk); break; }
+      if (k >= rk && fabs(ve) > 1e-6) {
+        /* input class (the recorded NIPALS finding, see drv_util.h): a component inside the rank came out null because it was started from a
+           column that is orthogonal to what is left - for uncentred data the start column is chosen by VARIANCE, so a constant column that
+           holds all the remaining sum of squares loses against columns of rounding residue; the real component then appears one slot later */
+        size_t q, a_, b_; int cls = 0; double cos0 = 1, rho2 = 0;
+        for (q = 0; q < rk && q < got; q++) if (fabs(m->varexp->data[q]) <= 1e-9) break;
+        if (q < rk && q < got) {
+          ldm *Eq = ldm_copy(T);
+          for (b_ = 0; b_ < q; b_++) for (i = 0; i < n; i++) for (a_ = 0; a_ < p; a_++) LM(Eq, i, a_) -= (ld)m->scores->data[i][b_] * m->loadings->data[a_][b_];
+          /* the start column the library takes: largest variance about the column mean among the columns of its (double precision) residual;
+             here: is every column that still carries sum of squares a constant column, i.e. invisible to a variance ranking? */
+          { int only_constant = 1; ld ssq = 0; for (a_ = 0; a_ < p; a_++) { ld mcol = 0, v = 0, s2 = 0; for (i = 0; i < n; i++) { mcol += LM(Eq, i, a_); s2 += LM(Eq, i, a_) * LM(Eq, i, a_); } mcol /= (ld)n; for (i = 0; i < n; i++) v += (LM(Eq, i, a_) - mcol) * (LM(Eq, i, a_) - mcol); ssq += s2; if (s2 > 1e-20L * e0 * e0 && v > 1e-20L * s2) only_constant = 0; }
+            cls = only_constant && ssq > 1e-20L * e0 * e0; }
+          cos0 = nipals_start_cos(Eq, &rho2);
+          ldm_free(Eq);
+        }
+        vh_fail(c, cls ? "PCA|varexp-nonzero-beyond-rank|remaining-variance-only-in-constant-columns-of-uncentred-data" : "PCA|varexp-nonzero-beyond-rank", "varexp[%zu]=%g beyond rank %zu (component %zu inside the rank is null; start cosine %.3g, eigenvalue ratio %.3g)", k, ve, rk, q, cos0, rho2);
+        break;
+      }
     }
     ldm_free(E);
   }
